@@ -557,6 +557,7 @@ void WorldQ::plant(const Json &op) {
     if (l) parse_chan_file(l->data, 0, m->rc);
     if (r) parse_chan_file(r->data, 1, m->rc);
     m->birth = k->clock - age; m->info_sender = m->sender;
+    if (tg) tg->on_preprocessed(m);
   }
 }
 
